@@ -13,7 +13,7 @@ ATOMS = [
     ('"\\n"', "\\n"), ('"\\r\\t"', "\\r\\t"), ('"\\\\"', "backslash"), ('"\\0"', "\\0"), ('"\\\'"', "\\'"), ('"\\""', '\\"'),
     ('"\\x41"', "\\x41"), ('"\\x00"', "\\x00"), ('"\\x7F"', "\\x7F"), ('"\\x7f"', "\\x7f lowercase"),
     ('"\\u{0}"', "\\u{0}"), ('"\\u{D7FF}"', "\\u{D7FF}"), ('"\\u{10FFFF}"', "\\u{10FFFF}"), ('"\\u{00e9}"', "\\u with leading zeros"),
-    ('"a\\\n     b"', "line continuation"), ('"a\\\n\\\n  b"', "two line continuations"),
+    ('"a\\\n     b"', "line continuation"), ('"a\\\n\t \t b"', "line continuation with tabs"), ('"a\\\n\\\n  b"', "two line continuations"),
     ('r"a\\n"', "raw r\"..\""), ('r#"b"c"#', "raw r#\"..\"#"), ('r##"x"#y"##', "raw r##"), ('r""', "empty raw"),
     ('""', "empty"),
     ('concat!("a", "b")', "concat!"), ('concat!()', "empty concat!"), ('concat!("a", concat!("\\n", r"c"))', "nested concat!"),
@@ -59,19 +59,24 @@ def program(name, method, branches, cap):
         let base: usize = kani::any();
         kani::assume(base <= 1 << 20);
         let w = s.as_bytes();
-        let p = Parser::with_start_offset(s, base);
+        // incoming direction is the opposite of the one the form must set
+        let p = Parser::with_start_offset(s, base)%s;
+        let dir_in = p.parse_direction();
         let (b, q) = run(p);
         let r = q.remainder();
         match %s {
             Some((wb, n)) => {
                 assert!(b as usize == wb);
                 %s
+                // like the equivalent Parser method call, the form records the end it worked from
+                assert!(q.parse_direction() == konst::parsing::ParseDirection::%s);
             }
             None => {
                 // default branch: the parser is unchanged
                 assert!(b == 255);
                 assert!(r.len() == w.len() && (r.is_empty() || r.as_ptr() == s.as_ptr()));
                 assert!(q.start_offset() == base && q.end_offset() == base + w.len());
+                assert!(q.parse_direction() == dir_in);
             }
         }
         must_reach!(b != 255, "a branch was taken (trim forms: the macro ran)");
@@ -80,7 +85,7 @@ def program(name, method, branches, cap):
     tiers! { %s: unwind(%d, %d), check(), check(),
         calls("konst::parser_method!(.., %s; ..)", "konst_proc_macros::__priv_bstr_start/__priv_bstr_end (output only)"),
         bounds("every valid UTF-8 input <=%d bytes, base <= 2^20; literals: %s", "same") }
-""" % (cap, spec, post, cap, name, cap + 4, cap + 4, method, cap,
+""" % (cap, ".skip_back(0)" if front else "", spec, post, "FromStart" if front else "FromEnd", cap, name, cap + 4, cap + 4, method, cap,
        " / ".join(" | ".join(b) for b in branches).replace("\\", "\\\\").replace('"', "'").replace("\n", "<newline>"))
     return plain, harness, inv
 
